@@ -561,6 +561,18 @@ def cmdCheckReport (fields : List String) : Except String String :=
       | none => .ok "panic"
   | _ => .error "checkreport: expected 2 fields"
 
+/-- `lexall <text>`: token start positions, the EOF position and the lexer errors of the lexer with recovery:
+    `<line:col ...>\t<eofline:eofcol>\t<line:col:hex(text) ...>` -/
+def cmdLexAll (fields : List String) : Except String String :=
+  match fields with
+  | [text] => do
+      let t ← decStr text
+      let (ts, es) := lexAll t.toList
+      let e := eofPos t.toList
+      .ok (" ".intercalate (ts.map (fun k => s!"{k.line}:{k.col}")) ++ "\t" ++ s!"{e.line}:{e.char}" ++ "\t" ++
+           " ".intercalate (es.map (fun x => s!"{x.line}:{x.col}:{bytesHex (String.ofList x.text).toUTF8.toList}")))
+  | _ => .error "lexall: expected 1 field"
+
 def dispatch (cmd : String) (fields : List String) : Except String String :=
   if cmd = "exec" then cmdExec fields
   else if cmd = "reconcile" then cmdReconcile fields
@@ -572,6 +584,7 @@ def dispatch (cmd : String) (fields : List String) : Except String String :=
   else if cmd = "parse" then cmdParse fields
   else if cmd = "lex" then cmdLex fields
   else if cmd = "checkreport" then cmdCheckReport fields
+  else if cmd = "lexall" then cmdLexAll fields
   else if cmd = "readframes" then cmdReadFrames fields
   else if cmd = "encodeframes" then cmdEncodeFrames fields
   else .error s!"unknown command {cmd}"
